@@ -218,6 +218,14 @@ def run_case(c, rng, props):
                         problems.append(("C05", k, "VJP is %s but the argument is %s" % (kind(vja), kind(xa))))
                     elif xa.dtype == onp.float64 and vja.dtype != onp.float64:
                         problems.append(("C05", k, "VJP dtype %s for a float64 argument" % vja.dtype))
+                    elif xa.dtype == onp.float64 and onp.asarray(gg).dtype == onp.float64 and yv.dtype in (onp.float32, onp.float16, onp.complex64):
+                        # the result has a non-default precision: its own cotangents (what grad / jacobian seed) have that dtype
+                        try:
+                            vjn = onp.asarray(vjp(onp.asarray(gg).astype(yv.dtype)[()] if onp.ndim(gg) == 0 else onp.asarray(gg).astype(yv.dtype)))
+                            if vjn.shape == xa.shape and kind(vjn) == kind(xa) and vjn.dtype != onp.float64:
+                                problems.append(("C05", k, "VJP dtype %s for a float64 argument (cotangent in the result's own dtype %s)" % (vjn.dtype, yv.dtype)))
+                        except Exception:
+                            pass
                     elif isinstance(x, float) and vja.shape != ():
                         problems.append(("C05", k, "VJP of a Python scalar has shape %s" % (vja.shape,)))
                 if "C09" in props and vja.shape == xa.shape and kind(vja) != kind(xa) and (onp.iscomplexobj(xa) or cplx_out):
